@@ -266,3 +266,24 @@ pub fn construct_sweep(rng: &mut Rng) -> Vec<Prog> {
   for _ in 0..6 { let mut g = Gen::new(rng); g.define_scalar_literal("f64"); g.define_scalar_literal("bool"); g.define_matrix_literal("f64", 1, 3); g.unop(); g.finish(); out.push(g.prog); }
   out
 }
+
+/// every native function the registry lists (corpus::stdlib_functions) called with a static set of argument shapes and kinds,
+/// arguments bound to variables first or written inline; most combinations are rejected by the interpreter (wrong arity or
+/// kind) - the properties that use the sweep only judge the programs that evaluate
+pub fn stdlib_sweep() -> Vec<(String, String)> {
+  let unary: [(&str, &str); 12] = [("f64", "2.5"), ("row", "[1 2 3]"), ("col", "[1; 2; 3]"), ("mat", "[1 2; 3 4]"), ("wide", "[1 2 3 4 5; 6 7 8 9 10]"), ("col5", "[1; 2; 3; 4; 5]"), ("u8", "3u8"), ("i64", "3<i64>"), ("set", "{1, 2, 3}"), ("string", "\"ab\""), ("bool", "true"), ("boolrow", "[true false true]")];
+  let binary: [(&str, &str, &str); 13] = [("f64,f64", "2.5", "0.5"), ("row,row", "[1 2 3]", "[4 5 6]"), ("col,col", "[1; 2; 3]", "[4; 5; 6]"), ("mat,mat", "[1 2; 3 4]", "[5 6; 7 8]"), ("mat,f64", "[1 2; 3 4]", "2"), ("f64,mat", "2", "[1 2; 3 4]"), ("mat,col", "[1 2; 3 4]", "[5; 6]"),
+    ("u8,u8", "7u8", "2u8"), ("set,set", "{1, 2, 3}", "{2, 3, 4}"), ("f64,set", "2", "{1, 2, 3}"), ("set,f64", "{1, 2, 3}", "4"), ("string,string", "\"ab\"", "\"cd\""), ("bool,bool", "true", "false")];
+  let mut out = Vec::new();
+  for f in crate::corpus::stdlib_functions() {
+    for (an, a) in unary.iter() {
+      out.push((format!("fn={};args={};form=v", f, an), format!("x := {}\nr := {}(x)", a, f)));
+      out.push((format!("fn={};args={};form=l", f, an), format!("r := {}({})", f, a)));
+    }
+    for (an, a, b) in binary.iter() {
+      out.push((format!("fn={};args={};form=vv", f, an), format!("x := {}\ny := {}\nr := {}(x, y)", a, b, f)));
+      out.push((format!("fn={};args={};form=ll", f, an), format!("r := {}({}, {})", f, a, b)));
+    }
+  }
+  out
+}
